@@ -41,6 +41,53 @@ structure InvR (p : Prog) (s : State) : Prop where
   verLe : ∀ w e, e ∈ (s.get w).seen → e.2.2 ≤ (s.get e.1).ver
   srcData : ∀ w x, x ∈ (s.get w).sources → (s.get x).kind ≠ .eff
 
+/-! ## the effect flags `dirty` / `chan` / `woken`: only ever set by marking -/
+
+structure FlagRel (s s' : State) : Prop where
+  d : ∀ i, (s.get i).dirty = true → (s'.get i).dirty = true
+  c : ∀ i, (s.get i).chan = true → (s'.get i).chan = true
+  w : ∀ i, (s.get i).woken = true → (s'.get i).woken = true
+  newD : ∀ i, (s'.get i).dirty = true → (s.get i).dirty = true ∨
+    ((s'.get i).chan = true ∧ (s'.get i).woken = true)
+  newC : ∀ i, (s'.get i).chan = true → (s.get i).chan = true ∨ (s'.get i).woken = true
+
+theorem FlagRel.refl (s : State) : FlagRel s s :=
+  ⟨fun _ h => h, fun _ h => h, fun _ h => h, fun _ h => .inl h, fun _ h => .inl h⟩
+
+theorem FlagRel.trans {s s' s'' : State} (h1 : FlagRel s s') (h2 : FlagRel s' s'') : FlagRel s s'' where
+  d i h := h2.d i (h1.d i h)
+  c i h := h2.c i (h1.c i h)
+  w i h := h2.w i (h1.w i h)
+  newD i h := by
+    rcases h2.newD i h with h' | h'
+    · rcases h1.newD i h' with h'' | h''
+      · exact .inl h''
+      · exact .inr ⟨h2.c i h''.1, h2.w i h''.2⟩
+    · exact .inr h'
+  newC i h := by
+    rcases h2.newC i h with h' | h'
+    · rcases h1.newC i h' with h'' | h''
+      · exact .inl h''
+      · exact .inr (h2.w i h'')
+    · exact .inr h'
+
+/-- states whose nodes carry the same three flags -/
+theorem FlagRel.of_same {s s' : State}
+    (h : ∀ i, (s'.get i).dirty = (s.get i).dirty ∧ (s'.get i).chan = (s.get i).chan ∧
+      (s'.get i).woken = (s.get i).woken) : FlagRel s s' :=
+  ⟨fun i hd => by rw [(h i).1]; exact hd, fun i hc => by rw [(h i).2.1]; exact hc,
+   fun i hw => by rw [(h i).2.2]; exact hw, fun i hd => .inl (by rw [← (h i).1]; exact hd),
+   fun i hc => .inl (by rw [← (h i).2.1]; exact hc)⟩
+
+theorem FlagRel.of_upd (s : State) (id : Nat) (g : Node → Node)
+    (hg : ∀ n, (g n).dirty = n.dirty ∧ (g n).chan = n.chan ∧ (g n).woken = n.woken) :
+    FlagRel s (s.upd id g) := by
+  apply FlagRel.of_same
+  intro i
+  rw [State.get_upd]; split
+  · exact hg _
+  · exact ⟨rfl, rfl, rfl⟩
+
 /-- what a call `upd … m` (`k = m + 1`) leaves alone (`obs` and `running` are stated separately) -/
 structure Frame (s s' : State) (k : Nat) : Prop where
   len : s'.nodes.length = s.nodes.length
@@ -54,10 +101,12 @@ structure Frame (s s' : State) (k : Nat) : Prop where
   effCore : ∀ i, (s.get i).kind = .eff → (s'.get i).core = (s.get i).core
   effD : ∀ i, (s.get i).kind = .eff → (s'.get i).dirty = true →
     (s.get i).dirty = true ∨ ∃ y ∈ (s.get i).sources, (s.get y).ver < (s'.get y).ver
+  flags : FlagRel s s'
 
 theorem Frame.refl (s : State) (k : Nat) : Frame s s k :=
   ⟨rfl, fun _ => rfl, fun _ h => ⟨h, rfl⟩, fun _ => Nat.le_refl _,
-   fun _ _ => rfl, fun _ _ => ⟨rfl, .inl rfl⟩, fun h => h, fun _ _ => rfl, fun _ _ h => .inl h⟩
+   fun _ _ => rfl, fun _ _ => ⟨rfl, .inl rfl⟩, fun h => h, fun _ _ => rfl, fun _ _ h => .inl h,
+   FlagRel.refl s⟩
 
 theorem Frame.trans {s s' s'' : State} {k : Nat} (h1 : Frame s s' k) (h2 : Frame s' s'' k) :
     Frame s s'' k where
@@ -92,6 +141,7 @@ theorem Frame.trans {s s' s'' : State} {k : Nat} (h1 : Frame s s' k) (h2 : Frame
       · exact .inr ⟨y, hy, Nat.lt_of_lt_of_le hv (h2.verMono y)⟩
     · rw [hsrc] at hy
       exact .inr ⟨y, hy, Nat.lt_of_le_of_lt (h1.verMono y) hv⟩
+  flags := h1.flags.trans h2.flags
 
 theorem Frame.mono {s s' : State} {k k' : Nat} (h : Frame s s' k) (hk : k ≤ k') : Frame s s' k' :=
   { h with above := fun i hi => h.above i (Nat.le_trans hk hi) }
@@ -263,5 +313,29 @@ theorem InvR.clean_correct {p : Prog} {s : State} (h : InvR p s) (hwf : WF p = t
       apply evalPure_congr (k := m) _ b hw.1.1
       intro j hj
       exact scratch_fuel _ hwf _ _ j (by simp only [fuelFor]; omega) (by omega)
+
+/-- when the value of a source of an effect changes, the effect is flagged dirty
+(unless it is the current observer, or dead) -/
+def ValCh (s s' : State) : Prop :=
+  ∀ i, (s.get i).kind = .eff → ∀ x ∈ (s.get i).sources, (s'.get x).val ≠ (s.get x).val →
+    (s'.get i).dirty = true ∨ s.obs = some i ∨ (s.get i).alive = false
+
+theorem ValCh.of_val_eq {s s' : State} (h : ∀ x, (s'.get x).val = (s.get x).val) : ValCh s s' :=
+  fun _ _ x _ hne => absurd (h x) hne
+
+theorem ValCh.trans {s s1 s2 : State} {k : Nat} (h1 : ValCh s s1) (h2 : ValCh s1 s2)
+    (f1 : Frame s s1 k) (f2 : Frame s1 s2 k) (ho : s1.obs = s.obs) : ValCh s s2 := by
+  intro i hk x hx hne
+  have hk1 : (s1.get i).kind = .eff := (f1.kind i).trans hk
+  have hc := f1.effCore i hk
+  by_cases h : (s1.get x).val = (s.get x).val
+  · rcases h2 i hk1 x (by rw [(Node.core_fields hc).2.2.1]; exact hx) (by rw [h]; exact hne) with h' | h' | h'
+    · exact .inl h'
+    · exact .inr (.inl (by rw [← ho]; exact h'))
+    · exact .inr (.inr (by rw [← (Node.core_life hc).1]; exact h'))
+  · rcases h1 i hk x hx h with h' | h' | h'
+    · exact .inl (f2.flags.d i h')
+    · exact .inr (.inl h')
+    · exact .inr (.inr h')
 
 end Leptos.Reactive
